@@ -1204,6 +1204,8 @@ class _TreeTyped:
                     defs = [n.value for n in walk_no_nested(fi.node) if isinstance(n, ast.Assign) and any(isinstance(t, ast.Name) and t.id == base.id for t in n.targets)]
                     if len(defs) == 1 and isinstance(defs[0], ast.ListComp):
                         return self.expr(defs[0].elt, fi, stack, depth + 1)
+                    if len(defs) == 1 and isinstance(defs[0], ast.Call) and isinstance(defs[0].func, ast.Name) and defs[0].func.id in ("list", "tuple") and len(defs[0].args) == 1 and isinstance(defs[0].args[0], ast.Call):
+                        defs = [defs[0].args[0]]  # list(helper(...)): the elements the helper produces
                     if len(defs) == 1 and isinstance(defs[0], ast.Call):
                         d = defs[0]
                         if isinstance(d.func, ast.Attribute) and u(d.func.value) in ("self", "cls") and fi.cls is not None:
